@@ -9,6 +9,7 @@ import (
 	"time"
 
 	"github.com/eclipse/paho.mqtt.golang/packets"
+	"github.com/emitter-io/emitter/internal/verifauto"
 	"github.com/emitter-io/emitter/internal/verifyield"
 	gws "github.com/gorilla/websocket"
 	"github.com/emitter-io/emitter/verifsim/kernel"
@@ -94,6 +95,29 @@ func runC10(c *kernel.Ctx) {
 	baton.NoParkUnder = []string{"websocketTransport).Write"} // that method holds its mutex across the socket write
 	verifyield.Hook = baton.Hook
 	defer func() { verifyield.Hook = nil }()
+	// half of the runs also park at the boundaries tools/autoyield put around every mutex / sync.Map /
+	// atomic operation of the delivery path (nobody parks while holding a mutex); a third of the runs
+	// let the task that ran last run on with probability 3/4 (deep runs of one task)
+	auto, sticky := t.Chance(1, 2), t.Chance(1, 3)
+	if auto {
+		baton.Auto = []string{"internal/network/listener/", "internal/network/websocket/", "internal/broker/conn.go", "internal/message/", "internal/service/pubsub/"}
+		baton.AutoSkip = []string{":Conn.Len:", ":Trie.Count:"} // polled by the flush timers and the stats loop
+		verifauto.Hook, verifauto.AcquireHook, verifauto.LockHook = baton.Hook, baton.AcquireHook, baton.LockHook
+		defer func() { verifauto.Hook, verifauto.AcquireHook, verifauto.LockHook = nil, nil, nil }()
+	}
+	var last uint64
+	pick := func(parked []*kernel.Parked) *kernel.Parked {
+		if sticky {
+			for _, p := range parked {
+				if p.Goid == last && t.Chance(3, 4) {
+					return p
+				}
+			}
+		}
+		p := parked[t.Choose(len(parked))]
+		last = p.Goid
+		return p
+	}
 	rate := []int{1, 2, 60, 1000}[t.Choose(4)]
 	lic := world.Licenses[2]
 	b := world.StartBroker(c, world.BrokerOpts{Lic: lic, Cluster: true, NodeName: "00:00:00:00:00:01", Advertise: "10.0.0.1:4000", StateDir: ":memory:", FlushRate: rate})
@@ -149,13 +173,14 @@ func runC10(c *kernel.Ctx) {
 		pubs = append(pubs, connect(fmt.Sprintf("pub%d", i), t.Chance(1, 4)))
 		pubChan[i] = fmt.Sprintf("s%d/%s", t.Choose(ns), chans[t.Choose(2)])
 	}
-	c.Logf("rate=%d pubs=%d subs=%d ws=%v", rate, np, ns, subWS)
+	c.Logf("rate=%d pubs=%d subs=%d ws=%v auto=%v sticky=%v", rate, np, ns, subWS, auto, sticky)
 	total := make([]int, np)
 	fed := make([]int, np)
 	for i := range total {
 		total[i] = t.Range(3, 25)
 	}
 	baton.SetActive(true)
+	var advanced time.Duration
 	maxSteps := 1500
 	for step := 0; step < maxSteps; step++ {
 		c.Step()
@@ -184,7 +209,7 @@ func runC10(c *kernel.Ctx) {
 		k := t.Choose(6)
 		switch {
 		case k < 3 && len(parked) > 0:
-			p := parked[t.Choose(len(parked))]
+			p := pick(parked)
 			c.Logf("run task@%s (%d parked)", p.Site, len(parked))
 			baton.Release(p)
 		case k < 5 && len(feedable) > 0:
@@ -197,11 +222,15 @@ func runC10(c *kernel.Ctx) {
 			pubs[i].Send(pubs[i].Publish(key+"/"+pubChan[i], []byte(pl), false, t.Chance(1, 4)))
 			c.Logf("feed pub%d #%d", i, fed[i])
 		case len(parked) > 0 && k < 5:
-			p := parked[t.Choose(len(parked))]
+			p := pick(parked)
 			c.Logf("run task@%s (%d parked)", p.Site, len(parked))
 			baton.Release(p)
 		default:
 			d := []time.Duration{time.Millisecond, 20 * time.Millisecond, 1100 * time.Millisecond}[t.Choose(3)]
+			if advanced+d > 80*time.Second {
+				d = time.Millisecond // the broker ends a connection that sent nothing for 120 s: stay well below
+			}
+			advanced += d
 			time.Sleep(d)
 			c.Stats.SimTime += d
 			c.Logf("advance %v", d)
@@ -212,6 +241,9 @@ func runC10(c *kernel.Ctx) {
 	world.Settle()
 	world.Advance(c, 1100*time.Millisecond)
 	world.Advance(c, 1100*time.Millisecond)
+	// a connection that the broker ended (idle deadline of 120 s, a request it could not read) shows as
+	// lost messages without being C10's business: missing messages are then harness trouble, not "loss"
+	ended := b.Svc.VerifConnections() != int64(1+ns+np)
 	nontriv := 0
 	for si, s := range subs {
 		pk, err := s.Recv()
@@ -261,6 +293,9 @@ func runC10(c *kernel.Ctx) {
 					c.Check("dup", disc+" foreign", "subscriber %d got messages of publisher %d which publishes to %s", si, pi, pubChan[pi])
 				}
 				continue
+			}
+			if next[pi] != fed[pi] && ended {
+				c.Harnessf("%d of %d connections are left at the end of the run and messages are missing: the broker ended a connection (simulated time advanced in the loop: %v)", b.Svc.VerifConnections(), 1+ns+np, advanced)
 			}
 			if next[pi] != fed[pi] {
 				c.Check("loss", disc, "subscriber %d received %d of the %d messages publisher %d sent to %s", si, next[pi], fed[pi], pi, pubChan[pi])
